@@ -206,7 +206,9 @@ def check_C02(cx):
         mc_and_replay_cex(cx, "MC" + name.replace("-", ""), c, ["TypeOK"], properties=["C02_Live"], spec="FairSpec",
                           what="C02 liveness under weak fairness, " + name)
     graphs = [("gq1", cfg({"W1": W("W1"), "W2": W("Wv")}, qsize=1, until=True)),
-              ("gq2nb", cfg({"W1": W("W1"), "W2": W("CW1")}, qsize=2, until=False))]
+              ("gq2nb", cfg({"W1": W("W1"), "W2": W("CW1")}, qsize=2, until=False)),
+              # a writer held inside the evaluation of its select (gated context) while the sender drains and leaves
+              ("gq1gated", cfg({"W1": W("W1"), "W2": W("CW1:gated")}, qsize=1, until=True))]
     if not quick:
         graphs += [("gq1b", cfg({"W1": W("W1", "CW1"), "W2": W("Wv")}, qsize=1, until=True)),
                    ("gq2", cfg({"W1": W("W1", "Wv"), "W2": W("CW1")}, qsize=2, until=True))]
@@ -214,7 +216,7 @@ def check_C02(cx):
         st = replay_graph(cx, name, c, max_paths=None if not quick else 400)
         log("  replay %s: %s" % (name, st))
     big = [
-        ("r4q1", cfg({"W1": W("W1", "Wv"), "W2": W("Wv", "WW"), "W3": W("CW1", "CWv"), "W4": W("W1")}, qsize=1, until=True)),
+        ("r4q1", cfg({"W1": W("W1", "Wv"), "W2": W("Wv", "WW"), "W3": W("CW1:gated", "CWv:gated"), "W4": W("W1")}, qsize=1, until=True)),
         ("r4q2", cfg({"W1": W("W1", "Wv", "CW1"), "W2": W("Wv", "WW"), "W3": W("CW1", "CWv"), "W4": W("W1")}, qsize=2, until=True)),
         ("r6q4", cfg({"W%d" % i: W("W1", "Wv") for i in range(1, 7)}, qsize=4, until=True)),
     ]
@@ -399,6 +401,7 @@ def check_C18(cx):
     big = [
         ("r5q1nb", cfg({"W%d" % i: W("W1", "CW1:far", "CWv:far") for i in range(1, 6)}, qsize=1, until=False)),
         ("r5q2b", cfg({"W%d" % i: W("W1", "CW1:mortal", "Wv") for i in range(1, 6)}, qsize=2, until=True)),
+        ("r4q1g", cfg({"W%d" % i: W("CW1:gated", "CWv:gated") for i in range(1, 5)}, qsize=1, until=True)),
         ("r4q1bc", cfg({"W%d" % i: W("W1", "CWv:mortal") for i in range(1, 5)}, {"C1": "e1"}, qsize=1, until=True)),
         ("r4q3nb", cfg({"W%d" % i: W("Wv", "CW1:dead", "W1") for i in range(1, 5)}, qsize=3, until=False)),
     ]
